@@ -113,7 +113,9 @@ Big(c) ==
        ELSE IF ~(s.res_pairs = s.residues /\ s.res_pairs = s.out_residues) THEN <<"fail", "RenamingBijective", "residues">>
        ELSE IF s.out_serial_distinct # s.n THEN <<"fail", "SerialsDistinct", "serial">>
        ELSE IF c.werr # "" THEN <<"fail", "WriteReadBack", c.werr>>
-       ELSE IF s.back_n # s.n \/ s.payload_back # s.payload_out \/ s.ids_back # s.ids_out THEN <<"fail", "WriteReadBack", "digest">>
+       \* read back: every field but occupancy / B by digest; those two to 0.01 (the PDB text carries two decimals)
+       ELSE IF s.back_n # s.n \/ s.payload_back # s.payload_out_rb \/ s.ids_back # s.ids_out THEN <<"fail", "WriteReadBack", "digest">>
+       ELSE IF s.back_ob_maxdiff > 1 THEN <<"fail", "WriteReadBack", "occupancy-or-B">>
        ELSE <<"ok">>
   ELSE IF c.err = "ValueError" THEN
        IF BigAlreadyFits(s) THEN <<"fail", "IdentityWhenFits", "refused">>
